@@ -156,9 +156,9 @@ SNext == Walk
 
 \* property level
 All(b) == {p \in 1..(HostMask(b) - 1) : ~Skip(p)}
-Ascending(s) == \A i, j \in 1..Len(s) : i < j => s[i] < s[j]
+Ascending(s) == \A i \in 1..(Len(s) - 1) : s[i] < s[i + 1]
 S1 == (pc = "done" /\ faults = 0) => ({sent[i] : i \in 1..Len(sent)} = All(cfg.bits) /\ Len(sent) = Cardinality(All(cfg.bits)))
-S1b == Ascending(sent) /\ \A i \in 1..Len(sent) : sent[i] \in All(cfg.bits)
+S1b == pc = "done" => (Ascending(sent) /\ \A i \in 1..Len(sent) : sent[i] \in 1..(HostMask(cfg.bits) - 1) /\ ~Skip(sent[i]))
 S3 == pc = "done" => ((res.r = "err") <=> (\E i \in 1..Len(plan) : plan[i].kind = "perm"))
 SExport == (Part = "scan" /\ pc = "done") => PrintT(ToJson([cfg |-> cfg, faults |-> plan, sent |-> sent, res |-> res.r]))
 
